@@ -106,11 +106,14 @@ def rule_R1(ctx, f):
                 ctx.ob(rid, "%s|direct-write" % strip_generics(b.path), False, "the text encoder must write only through WriteUtf8::write_all (found %s)" % strip_generics(c.callee), site=c.span)
 
 
-def _assume_region(es, start, stop, c_term, v, flag):
-    """Blocks reachable from `start` (not through `stop`) when the scanned character is `v` and the flag parameter is `flag`."""
+def _assume_region(es, start, stop, c_term, v, flag, flag_term=None, want_value=False):
+    """Blocks reachable from `start` (not through `stop`) when the scanned character is `v` and the flag parameter is `flag`.
+    want_value: return the value function as well (to evaluate the body's result under the same assumptions)."""
+    flag_term = P(2) if flag_term is None else flag_term
+
     def value(t):
         t = peel(t) if isinstance(t, tuple) else t
-        if t == P(2):
+        if t == flag_term:
             return flag
         if t == peel(c_term):
             return v
@@ -150,7 +153,45 @@ def _assume_region(es, start, stop, c_term, v, flag):
                 work.append(hit[0] if hit else si[2])
                 continue
         work.extend(es.succs(x))
-    return seen
+    return (seen, value) if want_value else seen
+
+
+def _position_needles(f, ff):
+    """find_first_occurence written as `v.bytes().position(|b| <predicate on b and the flag>)`: for each flag value the set of bytes the predicate accepts, found by
+    evaluating the closure for every byte value; None when the body is not of that form."""
+    r = peel(ff.term_local(0), transparent=[])
+    if not is_call(r, "Iterator::position") or len(r[2]) != 2:
+        return None
+    src = peel(r[2][0], transparent=["IntoIterator::into_iter", "slice::iter", "Iterator::copied", "Iterator::cloned"])
+    if not ((is_call(src, "str::bytes") and peel(src[2][0]) == P(1)) or (is_call(src, ["str::as_bytes", "String::as_bytes"]) and peel(src[2][0]) == P(1))):
+        return None
+    a = peel(r[2][1], transparent=[])
+    cl = f.closure(a[2]) if (isinstance(a, tuple) and a and a[0] == "agg" and a[1] == "closure") else None
+    if cl is None:
+        return None
+    caps = [peel(x) for x in a[3]]
+    flag_terms = [("field", ("deref", P(1)), str(i)) for i, c_ in enumerate(caps) if c_ == P(2)] + [("field", P(1), str(i)) for i, c_ in enumerate(caps) if c_ == P(2)]
+    if not flag_terms and caps:
+        return None
+    out = {}
+    exits = set(cl.exits())
+    for flag in (True, False):
+        acc = set()
+        for v in range(256):
+            res = None
+            for ft in (flag_terms or [None]):
+                reg, value = _assume_region(cl, 0, [], P(2), v, flag, flag_term=ft if ft is not None else ("none",), want_value=True)
+                defs = [d for d in cl.defs().get(0, []) if d[0] == "assign" and d[1] in reg]
+                if len(defs) == 1 and (reg & exits):
+                    res = value(cl.term_rvalue(defs[0][3], (defs[0][1], defs[0][2])))
+                    if isinstance(res, bool):
+                        break
+            if not isinstance(res, bool):
+                return None
+            if res:
+                acc.add(v)
+        out[flag] = acc
+    return out
 
 
 def rule_R2(ctx, f):
@@ -178,6 +219,11 @@ def rule_R2(ctx, f):
                         hay = peel(c.args[-1], transparent=["str::as_bytes", "String::as_bytes"])
                         ctx.ob(rid, "find_first_occurence|haystack|%s" % flag, hay == P(1), "the needles must be searched in the input string itself", site=c.span)
                 needles[flag] = ns
+        if not (ok and needles.get(True) and needles.get(False)):
+            pn = _position_needles(f, ff)
+            if pn is not None:
+                needles, ok = pn, True
+                ctx.ob(rid, "find_first_occurence|haystack|position", True, "the needles are searched in the input string itself (v.bytes().position(..))", site=ff.raw["span"]["at"])
         ctx.ob(rid, "find_first_occurence|shape", ok and bool(needles.get(True)) and bool(needles.get(False)), "find_first_occurence must select its needle set by the flag (found %s)" % needles, site=ff.raw["span"]["at"])
     es = ctx.anchor(rid, "escape_string", f.body(T + "escape_string"))
     if not es:
